@@ -43,7 +43,7 @@ PROPS = {
                        'the same statements are re-evaluated on every implementation step from Holder/State/AccruedRewards queries',
     },
     'C18': {
-        'corpus': ['D4.ops', 'crowd-migrate.ops'],
+        'corpus': ['D4.ops', 'crowd-migrate.ops', 'alt-spelling-genesis.ops'],
         'families': [gen('token', 30, 120), gen('tokeninit', 30, 100), gen('mixed', 15, 120), gen('crowd', 8, 160)],
         'slice': [r'tok\..*', r'inst\.bsei', r'inst\.stsei', r'hub\.bond', r'hub\.bondst'],
         'explanation': 'ledger invariant (sum of balances = supply) proved for every instantiate message and every message sequence of both token flavours; '
@@ -72,7 +72,7 @@ PROPS = {
         'explanation': 'exact recognition and two-sided pro-rata bounds proved (nlinarith over the order of floors in query_actual_state and calculate_new_withdraw_rate); every CheckSlashing on the implementation is compared with the exact shares',
     },
     'C17': {
-        'corpus': ['D3.ops'],
+        'corpus': ['D3.ops', 'large-reward-odd-price.ops'],
         'families': [pure('swapinfo', 10000, thorough_scale={'count': 80000}), gen('rewards', 30, 120), gen('admin', 10, 100)],
         'slice': [r'f\.swapinfo', r'hub\.ugi', r'disp\..*', r'inst\.disp'],
         'explanation': 'swap decision and dispatch split proved for all balances/prices/rates; get_swap_info driven through the real SwapToRewardDenom with fixed balances over the whole price range [1e-18,1e18]; whole index updates on the minichain',
@@ -117,8 +117,8 @@ PROPS = {
     'C07': {
         'corpus': ['undelegation-refused.ops'],
         'families': [gen('release', 30, 120), gen('mixed', 20, 120), gen('token', 10, 120)],
-        'slice': [r'tok\.send\.unbond', r'tok\.sendfrom\.unbond', r'hub\.withdraw', r'hub\.receive', r'env\.advance'],
-        'explanation': 'claim-sum invariant proved over unbond (both tokens), batch closing, release and withdrawal; on the implementation the sum of UnbondRequests over all users per batch is compared with CurrentBatch / AllHistory after every step, with Send and SendFrom, both tokens in one batch, across epoch boundaries',
+        'slice': [r'tok\.send\.unbond', r'tok\.sendfrom\.unbond', r'hub\.withdraw', r'hub\.receive', r'env\.advance', r'q\.hist'],
+        'explanation': 'claim-sum invariant proved over unbond (both tokens), batch closing, release and withdrawal; on the implementation the sum of UnbondRequests over all users per batch is compared with CurrentBatch / AllHistory after every step, with Send and SendFrom, both tokens in one batch, across epoch boundaries; AllHistory pages (start_from absent / 0 / a stored id / past the end, limit absent / 0 / small / 100 / 101) compared with the model and with the entries read one by one from storage',
     },
     'C08': {
         'corpus': ['undelegation-refused.ops', 'epoch-changed-midlife.ops'],
@@ -139,7 +139,7 @@ PROPS = {
         'explanation': 'registry removal / hub proxy / chain redelegation proved step by step (plan sums to the whole delegation via C12, targets still registered); end-to-end RemoveValidator transactions on the minichain with pending rewards, in-flight batches, blocked redelegations, removal and re-addition sequences',
     },
     'C19': {
-        'corpus': ['D3.ops'],
+        'corpus': ['D3.ops', 'large-reward-odd-price.ops'],
         'families': [gen('rewards', 40, 120), gen('registry', 15, 120), gen('mixed', 15, 120)],
         'slice': [r'hub\.ugi', r'disp\..*', r'reward\.ugi', r'hub\.bondrw', r'reg\.remove', r'env\.accrue'],
         'explanation': 'hub / distribution / dispatcher / re-bond / reward-index steps proved separately and composed; whole UpdateGlobalIndex transactions (incl. those triggered by validator removal) on the minichain: pending rewards zero afterwards, dispatcher empty, stSei pool up by exactly the re-bonded amount, no mint, claims and hub balance untouched, accrued grows by the delivered amount within dust',
